@@ -5,7 +5,7 @@
 From Coq Require Import List String NArith Bool Arith Lia.
 From Coq Require Import Strings.Byte.
 From YVGen Require Import ErrKinds UnwindArms.
-From YV Require Import Scanner Parser ParseRun Bytecode Skeleton Verifier VerifierProofs Lines LinesSpec LinesProofs ErrLang ErrLang2.
+From YV Require Import Scanner Parser ParseRun Bytecode Skeleton Verifier VerifierProofs Lines LinesSpec LinesProofs ErrLang ErrLang2 ParserInv.
 Import ListNotations.
 
 (* the mechanism model instantiated with the shape of today's unwind_stack / try_handle_error / call_native *)
@@ -134,14 +134,33 @@ Theorem C17_line_index_in_range : forall b p f a (nm md : string) (lines : list 
                exists l, line_at (mkFd nm md lines) (N.to_nat nx) = Some l.
 Proof. exact line_index_in_range. Qed.
 
-(* --- compile errors: token lines are lines of the source; partial for parser errors --- *)
+(* --- compile errors: token lines are lines of the source; parser errors by the token-line invariant of ParserInv.v --- *)
 Theorem C17_token_lines_in_range : forall src t,
   In t (scan_all src) -> (1 <= tline t <= 1 + N.of_nat (count_nl src))%N.
 Proof. exact token_lines_in_range. Qed.
-Theorem C17_compile_error_has_line_partial : forall src l a m,
-  err_line_from_tokenb src = true ->
+(* the line of a first error of the parser model is the line of a token the scanner produced for this source
+   (ParserInv.v: token-line invariant through every function of Parser.v, for every source) *)
+Theorem C17_parse_error_line_from_token : forall src l a m,
+  parse_source src = PErr l a m -> exists t, In t (scan_all src) /\ l = tline t.
+Proof. exact parse_error_line_from_token. Qed.
+(* ... hence a line of the source: NO side condition *)
+Theorem C17_compile_error_has_line : forall src l a m,
   parse_source src = PErr l a m -> (1 <= l <= N.of_nat (count_nl src) + 1)%N.
-Proof. exact compile_error_has_line_partial. Qed.
+Proof. exact compile_error_has_line. Qed.
+(* the side condition the check still evaluates per generated program (`tok=` of ErrLang.compile_msg_hex) is a theorem:
+   a `tok=F` seen by the driver contradicts it *)
+Theorem C17_err_line_from_tokenb_true : forall src, err_line_from_tokenb src = true.
+Proof. exact err_line_from_tokenb_true. Qed.
+(* the location part: the quoted lexeme is the text of a token of the source on the reported line; an error without
+   location part is a scanner error with the line and message of an Error token of the source *)
+Theorem C17_parse_error_at_token : forall src l a m,
+  parse_source src = PErr l a m ->
+  match a with
+  | AtToken lex => exists t, In t (scan_all src) /\ tline t = l /\ tsource t = lex /\ tk t <> TEof /\ tk t <> TError
+  | AtNothing => exists t, In t (scan_all src) /\ tline t = l /\ tk t = TError /\ m = str_of (tsource t)
+  | AtEnd => exists t, In t (scan_all src) /\ tline t = l
+  end.
+Proof. exact parse_error_at_token. Qed.
 
 Print Assumptions C17_side_shape.
 Print Assumptions C17_side_clear.
@@ -163,4 +182,7 @@ Print Assumptions C17_error_ip_rebase_refuted_old.
 Print Assumptions C17_error_ip_scoped_refuted_builtin.
 Print Assumptions C17_line_index_in_range.
 Print Assumptions C17_token_lines_in_range.
-Print Assumptions C17_compile_error_has_line_partial.
+Print Assumptions C17_parse_error_line_from_token.
+Print Assumptions C17_compile_error_has_line.
+Print Assumptions C17_err_line_from_tokenb_true.
+Print Assumptions C17_parse_error_at_token.
